@@ -54,6 +54,21 @@ def escaping(ctx, report, path, name):
     if n < 8:
         raise AnalysisError(f"{name}: only {n} sink events seen (floor 8)")
     report.count("sink_events", n)
+    keys = run.events("escaped-key")
+    seen = set()
+    for e in keys:
+        k = (e.fn.key if e.fn else "?", short(e.node, 80))
+        if k in seen:
+            continue
+        seen.add(k)
+        report.violation("R-ESCAPE-AT-SINK", (e.fn, e.node) if e.fn else (path, name),
+                         f"{name}: an escaped string is used as a key of the caption set ({e.what})",
+                         {"call": short(e.node, 100), "escapes_applied": e.extra.get("escapes"),
+                          "why": "the model is keyed by the raw value: the escaped form finds no captions / style, and the "
+                                 "element is written empty"}, "1")
+    if not seen:
+        report.ok("R-ESCAPE-AT-SINK", (path, name), f"{name}: escaping happens at the sinks only, never before a model lookup",
+                  {"model_accessor_calls_with_escaped_arguments": 0}, "1")
 
 
 def spans(ctx, report):
